@@ -15,7 +15,7 @@ Record dump := mkDump {
   d_xor : Z;            (* stored unspent-set checksum (projected) *)
   d_stored : Z;         (* header hash of the block re-read from the store at head seq *)
   d_sig_ok : bool;      (* the stored signature verifies over the stored header under the configured key *)
-  d_db_ok : bool;       (* visor.CheckDatabase passes and the checksum equals the xor over the unspent set *)
+  d_db_ok : bool;       (* visor.CheckDatabase passes on the node's file *)
   d_utxo : list (Z * Z * Z);   (* (id, coins, hours) sorted by id *)
   d_digest : Z          (* id of the digest of everything a rejected block must leave unchanged *)
 }.
